@@ -422,8 +422,17 @@ int main(int argc, char** argv) {
                     int nB = rng.range(2, 5);
                     auto msB = makeSteps(rng, nvec, nB, rAB + 1, tAB);
                     writeRun(A, false, true, nvec, msA, { "", -1 });
+                    // every other chain: run B lists its well vectors in reverse order (column p of B
+                    // holds well nvec-p); the series of one well must still be A's history followed by B's
+                    const bool permuted = !nested && nvec > 2 && (c % 4 == 0);
+                    if (permuted) {
+                        SMSpec::Parameters prm; prm.add("TIME", ":+:+:+:+", 0, "DAYS");
+                        for (int i = 1; i < nvec; ++i) prm.add("WBHP", keyOf(nvec - i), 0, "BARSA");
+                        writeRunP(B, false, true, prm, { 10, 10, 3 }, msB, { "RUNA", rAB });
+                    } else
                     writeRun(B, false, true, nvec, msB, { "RUNA", rAB });
                     std::vector<float> want; for (auto& m : msA) if (m.seq <= rAB) want.push_back(m.params[0]);
+                    std::vector<float> wantW; if (permuted) { for (auto& m : msA) if (m.seq <= rAB) wantW.push_back(m.params[1]); for (auto& m : msB) wantW.push_back(m.params[nvec - 1]); }
                     std::string last = "RUNB";
                     std::vector<Mini> msC; int rBC = 0;
                     if (nested) {
@@ -441,6 +450,17 @@ int main(int argc, char** argv) {
                         log.ok();
                     };
                     { ESmry es(tmp + "/" + last + ".SMSPEC", true); es.loadData(); cmp(es.get("TIME"), "esmry"); }
+                    // a vector list naming the same vector twice
+                    { ESmry es(tmp + "/" + last + ".SMSPEC", true); es.loadData({ "TIME", "TIME" }); cmp(es.get("TIME"), "esmry.duplicate-name"); }
+                    if (permuted) {
+                        auto cmpW = [&](const std::vector<float>& v, const std::string& reader) {
+                            if (v.size() != wantW.size()) { log.fail(key + ".permuted." + reader, "series length " + std::to_string(v.size()) + " expected " + std::to_string(wantW.size()) + info); return; }
+                            for (size_t t = 0; t < wantW.size(); ++t) if (std::memcmp(&wantW[t], &v[t], 4) != 0) { log.fail(key + ".permuted." + reader, "WBHP:" + keyOf(1) + " ministep " + std::to_string(t) + " is " + std::to_string(v[t]) + " expected " + std::to_string(wantW[t]) + info); return; }
+                            log.ok();
+                        };
+                        { ESmry es(tmp + "/RUNB.SMSPEC", true); es.loadData(); cmpW(es.get("WBHP:" + keyOf(1)), "esmry.whole"); }
+                        { ESmry es(tmp + "/RUNB.SMSPEC", true); cmpW(es.get("WBHP:" + keyOf(1)), "esmry.vector"); }
+                    }
                     // ESMRY files as the simulator writes them (ExtSmryOutput: RESTART / RSTNUM from the deck's
                     // RESTART keyword; RSTEP = 1 on the ministep that completes a report step)
                     auto writeEsmry = [&](const std::string& name, const std::vector<Mini>& ms, const std::string& base, int step) {
